@@ -805,3 +805,56 @@ for _m, _neg in (("eq", False), ("ne", True)):
               "core::array::equality::<impl core::cmp::PartialEq<[U; N]> for &[T]>::" + _m,
               "core::slice::cmp::<impl core::cmp::PartialEq<[U]> for [T]>::" + _m]
     builtin(*(_paths + [_bk(p) for p in _paths]))(_slice_eq_model(_neg))
+
+
+# ---- Zip: std specialises Zip over slice iterators through TrustedRandomAccess (unsafe index arithmetic); the model
+# below is the documented semantics: both sides advance together, the first exhausted side ends the zip.
+def _zip_new(w, st, fr, path, targs, args, dty):
+    a, b = args[0], args[1]
+    # second operand is `IntoIterator`: a reference to an array / slice becomes its iterator
+    if isinstance(b, Ref):
+        n = _arr_len(w, st, b)
+        if n is None:
+            return NOT_HANDLED
+        b = Agg(("sliceiter",), 0, [b, K(0, 64), n])
+    if not (isinstance(a, Agg) and a.kind in (("sliceiter",), ("zipmodel",)) and isinstance(b, Agg) and b.kind in (("sliceiter",), ("zipmodel",))):
+        return NOT_HANDLED
+    return Agg(("zipmodel",), 0, [a, b])
+
+
+builtin("core::iter::Iterator::zip", "core::iter::traits::iterator::Iterator::zip", "core::iter::adapters::zip::zip",
+        "core::iter::adapters::zip::Zip::<A, B>::new")(_zip_new)
+
+
+def _model_next(it):
+    """(condition term that an element exists, element value, advanced iterator) for sliceiter / zipmodel"""
+    if it.kind == ("sliceiter",):
+        base, i, n = it.fields
+        proj = base.proj + ((("i", i.val),) if i.is_const() else (("ix", i),))
+        return tm.cmp("ult", i, n), Ref(base.obj, proj, False), Agg(("sliceiter",), 0, [base, tm.binop("add", i, K(1, 64)), n])
+    if it.kind == ("zipmodel",):
+        ca, ea, na = _model_next(it.fields[0])
+        cb, eb, nb = _model_next(it.fields[1])
+        return tm.binop("and", ca, cb), Agg(("tuple",), 0, [ea, eb]), Agg(("zipmodel",), 0, [na, nb])
+    raise WalkError("iterator model %r" % (it.kind,))
+
+
+@builtin("<core::iter::adapters::zip::Zip<A, B> as core::iter::Iterator>::next",
+         "<core::iter::adapters::zip::Zip<A, B> as core::iter::traits::iterator::Iterator>::next",
+         "<core::iter::Zip<A, B> as core::iter::Iterator>::next")
+def _zip_next(w, st, fr, path, targs, args, dty):
+    r = args[0]
+    if not isinstance(r, Ref):
+        return NOT_HANDLED
+    it = w.load(st, r.obj, r.proj)
+    if not (isinstance(it, Agg) and it.kind == ("zipmodel",)):
+        return NOT_HANDLED
+    c, elem, nxt = _model_next(it)
+    c = w.simplify(st, c)
+
+    def take(s2):
+        w.store_to(s2, r.obj, r.proj, nxt)
+        return some(elem)
+    if c.is_const():
+        return take(st) if c.val else NONE
+    return ForkValues([(c, 1, take), (c, 0, NONE)])
